@@ -86,6 +86,8 @@ class InterFlow(Flow):
             return hv
         callee = inter.resolve(self.fi, e)
         if callee is None:
+            if isinstance(inter.ctx.res.resolve_expr(self.fi, e.func), ClassInfo):
+                return NOTNONE    # a constructor call yields an object
             return TOP
         binding, problems, star = bind_call(e, callee, *inter.partial_info(self.fi, e))
         val = {}
